@@ -256,7 +256,9 @@ def check_text(text, files, must_raise, stt, err=None, keep_dir=None):
     try:
         comp = None
         try:
-            comp = compile_text(text, fname)
+            # two lookup directories are always configured (they need not exist): the lookup branch of the import
+            # resolver runs for every import written without a leading '.' or '/'
+            comp = compile_text(text, fname, ["vf_lookup_1", "vf_lookup_2/sub"])
             exc = None
         except Exception as e:  # noqa
             exc = e
